@@ -756,6 +756,10 @@ def truth(a):
     """bool(a) as a term."""
     if is_const(a):
         return const(bool(a[1]))
+    if tag(a) == 'phi':
+        return phi(a[1], truth(a[2]), truth(a[3]))
+    if tag(a) == 'raise':
+        return a
     t = type_of(a)
     if t == 'bool':
         return a
